@@ -194,9 +194,35 @@ def r18_g(ctx):
     rets = [n for n in own_nodes(sd.node) if isinstance(n, ast.Return)]
     ok = len(rets) == 1 and ast.unparse(rets[0].value) == "a / b"
     wh = [c for c in astq.calls(sd) if astq.call_name(c) == "torch.where"]
-    ok2 = len(wh) == 1 and len(wh[0].args) == 3 and ast.unparse(wh[0].args[1]) == "b" and \
-        "b.abs()" in ast.unparse(wh[0].args[0]) and ">" in ast.unparse(wh[0].args[0]) and \
-        "sign" in ast.unparse(wh[0].args[2])
+    ok2 = False
+    if len(wh) == 1 and len(wh[0].args) == 3:
+        cond, x, y = wh[0].args
+        neg = False
+        while isinstance(cond, ast.UnaryOp) and isinstance(cond.op, ast.Not):
+            cond, neg = cond.operand, not neg
+        if isinstance(cond, ast.Compare) and len(cond.ops) == 1:
+            l, r, op = cond.left, cond.comparators[0], cond.ops[0]
+            # normalise to "big OP small" with OP in {>, >=}
+            if isinstance(op, (ast.Lt, ast.LtE)):
+                l, r = r, l
+                strict = isinstance(op, ast.Lt)
+            else:
+                strict = isinstance(op, ast.Gt)
+            if isinstance(op, (ast.Lt, ast.LtE, ast.Gt, ast.GtE)):
+                abs_big, abs_small = "b.abs()" in ast.unparse(l), "b.abs()" in ast.unparse(r)
+                eps_big, eps_small = ast.unparse(l) == "epsilon", ast.unparse(r) == "epsilon"
+                # |b| > eps selects b ; eps >= |b| (the complement) selects the guard
+                if abs_big and eps_small:
+                    keep_b_when_true = True
+                elif eps_big and abs_small:
+                    keep_b_when_true = False
+                else:
+                    keep_b_when_true = None
+                if keep_b_when_true is not None:
+                    if neg:
+                        keep_b_when_true = not keep_b_when_true
+                    chosen, guard = (x, y) if keep_b_when_true else (y, x)
+                    ok2 = ast.unparse(chosen) == "b" and "sign" in ast.unparse(guard) and "epsilon" in ast.unparse(guard)
     rep.check(ok and ok2, "R18.5", astq.loc(sd), f"{sd.key}::R18.5::guarded-division",
               "stable_division is no longer `a / where(|b| > eps, b, eps * sign(b))`", "a / guarded b")
     ctx.floor("R18.5", 1)
